@@ -30,6 +30,8 @@ func c13(c *eng.Ctx, r *eng.Report) {
 		"R13.5 recovery and aggregation do not write through their inputs: every in-place curve/signature operation in recoverSignature, RecoverGroupSignature, AggregatePubkeys and GroupSignGenerator works on a value allocated in that function and never initialised by a shallow struct copy of an input (Signature and Pubkey wrap a pointer). " +
 		"R13.6 a dealer deals one polynomial per group: the seed, the coefficients, the shares and the published dealer key are computed from the miner's long-term secret and the group hash with no randomness, clock or environment source in their cone, so a dealer whose context is rebuilt (restart, re-delivered init) hands the remaining members pieces of the same polynomial the others already hold. " +
 		"R13.7 recovery keeps nothing between calls: no cache, package-variable store or shared object in the cone of recoverSignature/RecoverGroupSignature (a memo keyed by the signer *set* and holding per-*position* coefficients is right for the first arrival order only). " +
+		"R13.8 a member signs with the key the DKG gave it, also after a restart: the record written for the signing key is exactly SignSecKey.Serialize() (a variable-length big-endian integer) and what is read back is handed to Deserialize whole — no re-slicing at a fixed width, nothing appended to the same record; " +
+		"R13.9 a share piece reaches only the member it was evaluated for: the two senders of share pieces (the initial deal and the answer to a re-request) use the unicast SendToStranger with the receiver's id — a ResponseSharePiece carries no receiver field, so a group-wide spread lets another member that still misses this dealer's piece adopt f(requester). " +
 		"Not decided: that interpolation over any ≥k points yields the same group element (algebra), DKG secrecy/robustness, hash-to-curve, anything about the pairing."
 	r.Trusted = append(r.Trusted, "math/big arithmetic", "consensus/groupsig/bn256 curve arithmetic (Add, ScalarMult are the group law)", "common.ToHex is an injective hex rendering of its byte argument")
 	r.Assume = append(r.Assume, "member ids are distinct and non-zero modulo the curve order (ids are SHA3 of public keys)")
@@ -40,6 +42,8 @@ func c13(c *eng.Ctx, r *eng.Report) {
 	c13ReadOnly(c, r)
 	c13DealerDeterminism(c, r)
 	c13RecoveryPure(c, r)
+	c13KeyAtRest(c, r)
+	c13PieceRouting(c, r)
 }
 
 func isGetGroupK(v ssa.Value) *ssa.Call {
@@ -1078,4 +1082,80 @@ func c13RecoveryPure(c *eng.Ctx, r *eng.Report) {
 		}
 	}
 	r.Check(bad == "" && nfn >= 5, rule, "recovery:pure", c.Pos(entries[0].Pos()), fmt.Sprintf("no process-local memo in the %d functions of the recovery cone", nfn), "signature recovery consults process-local state: "+bad+" — what a recovery computes then depends on the recoveries that ran before it in this process (e.g. Lagrange coefficients cached for the same signers in another arrival order), so the same k-subset can give a signature that does not verify")
+}
+
+// c13KeyAtRest: Seckey.Serialize() is big.Int.Bytes() — 31 bytes for one key in
+// 256 — so the record has no fixed width to split at.
+func c13KeyAtRest(c *eng.Ctx, r *eng.Report) {
+	const rule = "R13.8"
+	r.Min(rule, 2)
+	save := c.Func("consensus/access", "(*JoinedGroupStorage).saveSignSecKey")
+	load := c.Func("consensus/access", "(*JoinedGroupStorage).load")
+	if !r.Anchor(save != nil, rule, "access.(*JoinedGroupStorage).saveSignSecKey") || !r.Anchor(load != nil, rule, "access.(*JoinedGroupStorage).load") {
+		return
+	}
+	// writer: SaveJoinedGroup(signKeySuffix(..), X) with X the direct result of Seckey.Serialize
+	okW, nW := true, 0
+	for _, s := range eng.Sites(save) {
+		if !strings.HasSuffix(s.Name(), ".SaveJoinedGroup") {
+			continue
+		}
+		nW++
+		args := s.Common().Args
+		v := args[len(args)-1]
+		call, isC := v.(*ssa.Call)
+		if !isC || !strings.HasSuffix(eng.CallName(&call.Call), "Seckey).Serialize") {
+			okW = false
+		}
+	}
+	r.Check(okW && nW == 1, rule, "sign-key:stored-verbatim", c.Pos(save.Pos()), "the record is Seckey.Serialize() itself", "saveSignSecKey stores something other than SignSecKey.Serialize() under the sign-key record (e.g. the key with more data appended): Serialize() is a variable-length integer encoding, so the reader cannot tell where the key ends — a key with a leading zero byte (1 in 256) is read back with foreign bytes shifted in, the member's shares stop verifying and every subset that includes it recovers an invalid group signature")
+	// reader: SignSecKey.Deserialize(bs) with bs the direct result of the load call
+	okR, nR := true, 0
+	for _, s := range eng.Sites(load) {
+		if !strings.HasSuffix(s.Name(), "Seckey).Deserialize") {
+			continue
+		}
+		nR++
+		v := s.Common().Args[len(s.Common().Args)-1]
+		ex, isE := v.(*ssa.Extract)
+		if !isE {
+			okR = false
+			continue
+		}
+		if call, isC := ex.Tuple.(*ssa.Call); !isC || !strings.Contains(eng.CallName(&call.Call), "GetJoinedGroup") {
+			okR = false
+		}
+	}
+	r.Check(okR && nR >= 1, rule, "sign-key:read-whole", c.Pos(load.Pos()), "Deserialize is given the stored record whole", "load() hands SignSecKey.Deserialize a re-sliced or otherwise processed record instead of the bytes it read: the stored key has no fixed width, so a split at a fixed offset changes keys whose encoding is shorter")
+}
+
+// c13PieceRouting: who gets to see f_dealer(id).
+func c13PieceRouting(c *eng.Ctx, r *eng.Report) {
+	const rule = "R13.9"
+	r.Min(rule, 2)
+	for _, spec := range []struct{ fn, recv string }{
+		{"(*NetworkServerImpl).SendKeySharePiece", "ReceiverId"},
+		{"(*NetworkServerImpl).ResponseSharePiece", "receiver"},
+	} {
+		fn := c.Func("consensus/net", spec.fn)
+		if !r.Anchor(fn != nil, rule, "net."+spec.fn) {
+			continue
+		}
+		var sends []string
+		ok := true
+		for _, b := range fn.Blocks {
+			for _, in := range b.Instrs {
+				ci, isCall := in.(ssa.CallInstruction)
+				if !isCall || !ci.Common().IsInvoke() || !strings.HasSuffix(eng.Desc(ci.Common().Value), ".net") {
+					continue
+				}
+				m := ci.Common().Method.Name()
+				sends = append(sends, m)
+				if m != "SendToStranger" || len(ci.Common().Args) == 0 || !strings.Contains(eng.Desc(ci.Common().Args[0]), spec.recv) {
+					ok = false
+				}
+			}
+		}
+		r.Check(ok && len(sends) == 1, rule, "share-piece-route:"+spec.fn, c.Pos(fn.Pos()), "one unicast SendToStranger to the receiver's id", fmt.Sprintf("%s sends the share piece with %v instead of one SendToStranger to the receiver it was evaluated for: any other member that still misses this dealer's piece keeps the first one it sees, sums a key that is not on the group polynomial, and every subset that includes it recovers an invalid group signature", spec.fn, sends))
+	}
 }
